@@ -37,6 +37,8 @@ pub enum Step {
     Pause(u8),
     /// a sequential request to a port where nothing listens: it fails, the session it used stays healthy
     Refused,
+    /// the network cuts every established session; the client gets half a second to notice
+    KillAll,
 }
 
 #[derive(Clone, Debug, Serialize, Deserialize)]
@@ -55,6 +57,8 @@ pub struct Forwarder {
     pub addr: SocketAddr,
     pub accepted: Arc<AtomicUsize>,
     pub live: Arc<AtomicUsize>,
+    /// bumping this generation cuts every connection that is open at that moment
+    pub kill: tokio::sync::watch::Sender<u64>,
 }
 
 pub async fn start_forwarder(upstream: SocketAddr) -> Result<Forwarder, Fail> {
@@ -63,9 +67,12 @@ pub async fn start_forwarder(upstream: SocketAddr) -> Result<Forwarder, Fail> {
     let accepted = Arc::new(AtomicUsize::new(0));
     let live = Arc::new(AtomicUsize::new(0));
     let (a2, l2) = (accepted.clone(), live.clone());
+    let (kill, kill_rx) = tokio::sync::watch::channel(0u64);
     tokio::spawn(async move {
         loop {
             let Ok((mut c, _)) = l.accept().await else { break };
+            let mut killed = kill_rx.clone();
+            killed.borrow_and_update();
             let _ = c.set_nodelay(true);
             a2.fetch_add(1, Ordering::SeqCst);
             l2.fetch_add(1, Ordering::SeqCst);
@@ -102,13 +109,13 @@ pub async fn start_forwarder(upstream: SocketAddr) -> Result<Forwarder, Fail> {
                         }
                     };
                     // the connection is over as soon as either side closed
-                    tokio::select! { _ = a => {}, _ = b => {} }
+                    tokio::select! { _ = a => {}, _ = b => {}, _ = killed.changed() => {} }
                 }
                 l3.fetch_sub(1, Ordering::SeqCst);
             });
         }
     });
-    Ok(Forwarder { addr, accepted, live })
+    Ok(Forwarder { addr, accepted, live, kill })
 }
 
 pub async fn one_request(socks: SocketAddr, target: SocketAddr, tag: usize) -> Result<(), Fail> {
@@ -134,7 +141,7 @@ impl Family for ReuseFam {
         "reuse"
     }
     fn strategy(&self, _tier: Tier) -> BoxedStrategy<ReuseCase> {
-        let step = prop_oneof![8 => Just(Step::Seq), 2 => (2u8..6).prop_map(Step::Burst), 2 => (8u8..20).prop_map(Step::Burst), 1 => Just(Step::Refused)];
+        let step = prop_oneof![8 => Just(Step::Seq), 2 => (2u8..6).prop_map(Step::Burst), 2 => (8u8..20).prop_map(Step::Burst), 1 => Just(Step::Refused), 1 => Just(Step::KillAll)];
         let step_t = prop_oneof![8 => Just(Step::Seq), 2 => (2u8..4).prop_map(Step::Burst), 4 => prop_oneof![Just(5u8), Just(25), Just(35)].prop_map(Step::Pause), 1 => Just(Step::Refused)];
         prop_oneof![
             2 => (0usize..=3, proptest::collection::vec(step, 2..14)).prop_map(|(min_idle, steps)| ReuseCase { min_idle, steps, short_timers: false }),
@@ -150,6 +157,9 @@ impl Family for ReuseFam {
             // a destination that refuses costs the request, not the session
             ReuseCase { min_idle: 1, steps: vec![Step::Refused, Step::Seq, Step::Seq], short_timers: false },
             ReuseCase { min_idle: 1, steps: vec![Step::Seq, Step::Refused, Step::Seq, Step::Refused, Step::Seq], short_timers: false },
+            // sessions cut by the network are not handed out again; the request after the cut is served
+            ReuseCase { min_idle: 1, steps: vec![Step::Seq, Step::KillAll, Step::Seq, Step::Seq], short_timers: false },
+            ReuseCase { min_idle: 2, steps: vec![Step::Burst(4), Step::KillAll, Step::Seq, Step::Burst(3), Step::KillAll, Step::Seq], short_timers: false },
             // a quiet period longer than the idle timeout: the reaper keeps min idle sessions for reuse
             ReuseCase { min_idle: 1, steps: vec![Step::Seq, Step::Pause(35), Step::Seq], short_timers: true },
             ReuseCase { min_idle: 2, steps: vec![Step::Burst(3), Step::Pause(35), Step::Seq, Step::Seq], short_timers: true },
@@ -182,6 +192,8 @@ impl Family for ReuseFam {
                 // A request that finds the model pool non-empty must not dial - that part is exact
                 // and armed; only a dial on an empty model pool falls under the known finding.
                 let mut pooled: i64 = 0;
+                // after a cut the idle map may still list closed sessions until the reaper drops them
+                let mut dead_in_pool = false;
                 for (si, step) in case.steps.iter().enumerate() {
                     let before = fwd.accepted.load(Ordering::SeqCst);
                     let established = fwd.live.load(Ordering::SeqCst);
@@ -227,6 +239,19 @@ impl Family for ReuseFam {
                                 }
                             }
                         }
+                        Step::KillAll => {
+                            fwd.kill.send_modify(|g| *g += 1);
+                            let gone = wait_until(5_000, || fwd.live.load(Ordering::SeqCst) == 0).await;
+                            if !gone {
+                                return Err(infra("the forwarder did not cut its connections"));
+                            }
+                            tokio::time::sleep(Duration::from_millis(500)).await;
+                            // every session is dead: whatever the pool still holds is closed and must be
+                            // skipped (C12), the next request dials
+                            pooled = 0;
+                            dead_in_pool = true;
+                            continue;
+                        }
                         Step::Pause(ds) => {
                             tokio::time::sleep(Duration::from_millis(*ds as u64 * 100)).await;
                             if case.short_timers && *ds >= 20 {
@@ -263,7 +288,7 @@ impl Family for ReuseFam {
                     // the pool's own count against the model (exact while no timer has fired): a session
                     // that was dialled and not yet taken out must be in the idle map - one that is missing
                     // is alive but unreachable: never reused, never reaped
-                    if !case.short_timers {
+                    if !case.short_timers && !dead_in_pool {
                         let idle = client.verif_session_pool().idle_count().await as i64;
                         if idle != pooled {
                             return Err(Fail::new(
@@ -299,6 +324,7 @@ impl Family for ReuseFam {
         out.class_if(seqs >= 3, "sequential>=3");
         out.class_if(burst_then_seq, "burst-then-sequential");
         out.class_if(case.min_idle == 0, "min_idle=0");
+        out.class_if(case.steps.windows(2).any(|w| matches!(w[0], Step::KillAll) && matches!(w[1], Step::Seq | Step::Burst(_))), "request-after-all-sessions-cut");
         out.class_if(case.steps.windows(2).any(|w| matches!(w[0], Step::Refused) && matches!(w[1], Step::Seq)), "refused-then-sequential");
         out.class_if(case.steps.iter().any(|s| matches!(s, Step::Pause(d) if *d >= 20)) && case.short_timers, "quiet-period>idle-timeout");
         Ok(out)
